@@ -95,6 +95,12 @@ BOUNDED = {
                      'EVERY instrument: position = net filled quantity of its OWN instrument, closed record iff its net reaches or crosses zero, realised PnL and fee conservation, '
                      'fill ids, instruments not named untouched; and (dispatch id C02P) the real Engine::process over random event histories with a strategy that issues orders on the same events: the audit record of a fill carries a position-closed record exactly when the fill takes the net quantity to or across zero',
                 bound={'quick': '~252k events + 10k engine histories', 'thorough': '~1.9M events + 200k engine histories'}),
+    'C18': dict(what='timed value curves through the REAL DrawdownGenerator / MaxDrawdownGenerator / MeanDrawdownGenerator and the PnL curve of a TearSheetGenerator against an '
+                     'independent peak-to-trough decomposition of the whole prefix recomputed after every point (crafted, exhaustive over small value sets, seeded random walks, generate() '
+                     'asked at every choice of points); and the REAL TradingSummaryGenerator::init over asset tables in which any subset of the assets has a balance at init, then equity '
+                     'points delivered by AssetIndex: the generator of exactly the named asset takes them (a twin of the statistics the table held, fed the same points), every other '
+                     'asset generator is untouched, one generator per asset of the table',
+                bound={'quick': 'curves of up to 7 points over 5 values + 10k random walks + 2^n x n routing cases', 'thorough': 'up to 7 points over 7 values + 150k random walks'}),
     'C15': dict(what='the REAL EngineState (and, for half of the random histories, Engine::process) over six instruments on several exchanges: every sequence with repetition '
                      'up to a length bound over four event alphabets (trades with receive latency larger than the exchange-time gaps, equal / older exchange times, fills stamped '
                      'later than the following market data, two-sided / one-sided / weighted L1 books) plus seeded random histories of 6..65 events; after every delivery: the '
